@@ -3,6 +3,7 @@
 use std::convert::TryFrom;
 
 const CUSTOM: u16 = 0xffff;
+const CUSTOM_BASE: u16 = 0x1000;
 
 /// A lower-case header name.
 #[derive(Clone, Debug)]
@@ -99,16 +100,50 @@ standard_headers! {
     (WWW_AUTHENTICATE, "www-authenticate", 44);
 }
 
+// All scans over byte strings are written as two nested loops of at most 8 iterations each
+// (64 bytes), so that harnesses can use a small global loop-unwinding bound. Longer strings
+// trip the assertion below -- a model limit, reported, never silently truncated.
+pub const MODEL_MAX_STR: usize = 64;
+
+fn all_bytes<F: Fn(u8) -> bool>(b: &[u8], ok: F) -> bool {
+    assert!(b.len() <= MODEL_MAX_STR, "http model: byte string longer than MODEL_MAX_STR");
+    let mut o = 0;
+    while o < 8 {
+        let mut i = 0;
+        while i < 8 {
+            let k = o * 8 + i;
+            if k < b.len() && !ok(b[k]) {
+                return false;
+            }
+            i += 1;
+        }
+        if (o + 1) * 8 >= b.len() {
+            break;
+        }
+        o += 1;
+    }
+    true
+}
+
 fn bytes_eq(a: &[u8], b: &[u8]) -> bool {
     if a.len() != b.len() {
         return false;
     }
-    let mut i = 0;
-    while i < a.len() {
-        if a[i] != b[i] {
-            return false;
+    assert!(a.len() <= MODEL_MAX_STR, "http model: byte string longer than MODEL_MAX_STR");
+    let mut o = 0;
+    while o < 8 {
+        let mut i = 0;
+        while i < 8 {
+            let k = o * 8 + i;
+            if k < a.len() && a[k] != b[k] {
+                return false;
+            }
+            i += 1;
         }
-        i += 1;
+        if (o + 1) * 8 >= a.len() {
+            break;
+        }
+        o += 1;
     }
     true
 }
@@ -123,15 +158,12 @@ impl HeaderName {
     pub fn from_static(src: &'static str) -> HeaderName {
         let b = src.as_bytes();
         assert!(!b.is_empty(), "invalid static header name");
-        let mut i = 0;
-        while i < b.len() {
-            assert!(
-                is_token_byte(b[i]) && !(b[i] >= b'A' && b[i] <= b'Z'),
-                "invalid static header name"
-            );
-            i += 1;
+        assert!(all_bytes(b, |c| is_token_byte(c) && !(c >= b'A' && c <= b'Z')), "invalid static header name");
+        let mut idx = lookup(b);
+        if idx == CUSTOM {
+            idx = intern(src);
         }
-        HeaderName { idx: lookup(b), s: src }
+        HeaderName { idx, s: src }
     }
 
     pub fn from_bytes(src: &[u8]) -> Result<HeaderName, InvalidHeaderName> {
@@ -158,7 +190,7 @@ impl HeaderName {
             }
         }
         let s: &'static str = Box::leak(String::from_utf8(v).unwrap().into_boxed_str());
-        Ok(HeaderName { idx, s })
+        Ok(HeaderName { idx: intern(s), s })
     }
 
     pub fn from_lowercase(src: &[u8]) -> Result<HeaderName, InvalidHeaderName> {
@@ -175,26 +207,59 @@ impl HeaderName {
     pub fn as_str(&self) -> &str {
         self.s
     }
+
+    /// MODEL-ONLY: the integer that decides equality of names.
+    pub fn model_idx(&self) -> u16 {
+        self.idx
+    }
 }
 
 fn lookup(b: &[u8]) -> u16 {
-    let mut k = 0;
-    while k < STANDARD.len() {
-        if bytes_eq(STANDARD[k].0.as_bytes(), b) {
-            return STANDARD[k].1;
+    let mut o = 0;
+    while o < 6 {
+        let mut i = 0;
+        while i < 8 {
+            let k = o * 8 + i;
+            if k < STANDARD.len() && bytes_eq(STANDARD[k].0.as_bytes(), b) {
+                return STANDARD[k].1;
+            }
+            i += 1;
         }
-        k += 1;
+        o += 1;
     }
     CUSTOM
 }
 
+/// Equality is one integer comparison: standard names carry their table index and custom
+/// names are interned when they are created (so no string scan happens on lookups, which
+/// may run on symbolic map contents under the model checker).
 impl PartialEq for HeaderName {
     fn eq(&self, o: &HeaderName) -> bool {
-        if self.idx != CUSTOM || o.idx != CUSTOM {
-            self.idx == o.idx
-        } else {
-            bytes_eq(self.s.as_bytes(), o.s.as_bytes())
+        self.idx == o.idx
+    }
+}
+
+const INTERN_CAP: usize = 8;
+static mut INTERNED: [&str; INTERN_CAP] = [""; INTERN_CAP];
+static mut N_INTERNED: usize = 0;
+
+/// Index for a non-standard (lower-case, valid) name: CUSTOM_BASE + position in the intern table.
+/// The model is single-threaded (it only ever runs under the model checker or in the
+/// sequential conformance tests).
+#[allow(static_mut_refs)]
+fn intern(s: &'static str) -> u16 {
+    unsafe {
+        let mut i = 0;
+        while i < INTERN_CAP {
+            if i < N_INTERNED && bytes_eq(INTERNED[i].as_bytes(), s.as_bytes()) {
+                return CUSTOM_BASE + i as u16;
+            }
+            i += 1;
         }
+        assert!(N_INTERNED < INTERN_CAP, "http model: more than INTERN_CAP distinct custom header names");
+        INTERNED[N_INTERNED] = s;
+        N_INTERNED += 1;
+        CUSTOM_BASE + (N_INTERNED - 1) as u16
     }
 }
 impl Eq for HeaderName {}
@@ -280,7 +345,10 @@ impl<'a> TryFrom<&'a [u8]> for HeaderName {
 enum Repr {
     Static(&'static [u8]),
     Owned(Vec<u8>),
+    /// MODEL-ONLY: short values kept inline (stack), for harnesses with symbolic bytes.
+    Inline([u8; INLINE_CAP], u8),
 }
+pub const INLINE_CAP: usize = 24;
 
 /// A header value: any bytes except CTLs other than HTAB.
 #[derive(Clone, Debug)]
@@ -300,33 +368,21 @@ impl HeaderValue {
     /// Panics if the string contains a byte the real crate rejects (it requires visible ASCII).
     pub fn from_static(src: &'static str) -> HeaderValue {
         let b = src.as_bytes();
-        let mut i = 0;
-        while i < b.len() {
-            assert!(is_visible_ascii(b[i]), "invalid header value");
-            i += 1;
-        }
+        assert!(all_bytes(b, is_visible_ascii), "invalid header value");
         HeaderValue { repr: Repr::Static(b), sensitive: false }
     }
 
     pub fn from_str(src: &str) -> Result<HeaderValue, InvalidHeaderValue> {
         let b = src.as_bytes();
-        let mut i = 0;
-        while i < b.len() {
-            if !is_visible_ascii(b[i]) {
-                return Err(InvalidHeaderValue { _p: () });
-            }
-            i += 1;
+        if !all_bytes(b, is_visible_ascii) {
+            return Err(InvalidHeaderValue { _p: () });
         }
         Ok(HeaderValue { repr: Repr::Owned(b.to_vec()), sensitive: false })
     }
 
     pub fn from_bytes(src: &[u8]) -> Result<HeaderValue, InvalidHeaderValue> {
-        let mut i = 0;
-        while i < src.len() {
-            if !is_valid_value_byte(src[i]) {
-                return Err(InvalidHeaderValue { _p: () });
-            }
-            i += 1;
+        if !all_bytes(src, is_valid_value_byte) {
+            return Err(InvalidHeaderValue { _p: () });
         }
         Ok(HeaderValue { repr: Repr::Owned(src.to_vec()), sensitive: false })
     }
@@ -350,21 +406,37 @@ impl HeaderValue {
         HeaderValue { repr: Repr::Static(v), sensitive: false }
     }
 
+    /// MODEL-ONLY constructor used by harnesses: up to INLINE_CAP bytes, no heap.
+    pub fn model_from_inline(b: &[u8]) -> HeaderValue {
+        assert!(b.len() <= INLINE_CAP);
+        let mut buf = [0u8; INLINE_CAP];
+        let mut o = 0;
+        while o < INLINE_CAP / 8 {
+            let mut i = 0;
+            while i < 8 {
+                let k = o * 8 + i;
+                if k < b.len() {
+                    buf[k] = b[k];
+                }
+                i += 1;
+            }
+            o += 1;
+        }
+        HeaderValue { repr: Repr::Inline(buf, b.len() as u8), sensitive: false }
+    }
+
     pub fn as_bytes(&self) -> &[u8] {
         match &self.repr {
             Repr::Static(s) => s,
             Repr::Owned(v) => &v[..],
+            Repr::Inline(b, n) => &b[..*n as usize],
         }
     }
 
     pub fn to_str(&self) -> Result<&str, ToStrError> {
         let b = self.as_bytes();
-        let mut i = 0;
-        while i < b.len() {
-            if !is_visible_ascii(b[i]) {
-                return Err(ToStrError { _p: () });
-            }
-            i += 1;
+        if !all_bytes(b, is_visible_ascii) {
+            return Err(ToStrError { _p: () });
         }
         Ok(unsafe { std::str::from_utf8_unchecked(b) })
     }
@@ -477,12 +549,8 @@ impl TryFrom<String> for HeaderValue {
     type Error = InvalidHeaderValue;
     fn try_from(s: String) -> Result<Self, Self::Error> {
         let v = s.into_bytes();
-        let mut i = 0;
-        while i < v.len() {
-            if !is_valid_value_byte(v[i]) {
-                return Err(InvalidHeaderValue { _p: () });
-            }
-            i += 1;
+        if !all_bytes(&v[..], is_valid_value_byte) {
+            return Err(InvalidHeaderValue { _p: () });
         }
         Ok(HeaderValue { repr: Repr::Owned(v), sensitive: false })
     }
@@ -490,12 +558,8 @@ impl TryFrom<String> for HeaderValue {
 impl TryFrom<Vec<u8>> for HeaderValue {
     type Error = InvalidHeaderValue;
     fn try_from(v: Vec<u8>) -> Result<Self, Self::Error> {
-        let mut i = 0;
-        while i < v.len() {
-            if !is_valid_value_byte(v[i]) {
-                return Err(InvalidHeaderValue { _p: () });
-            }
-            i += 1;
+        if !all_bytes(&v[..], is_valid_value_byte) {
+            return Err(InvalidHeaderValue { _p: () });
         }
         Ok(HeaderValue { repr: Repr::Owned(v), sensitive: false })
     }
@@ -580,35 +644,55 @@ impl<'a> IntoHeaderName for &'a HeaderName {}
 impl IntoHeaderName for &'static str {}
 
 /// Insertion-ordered multimap. Values of one name are kept adjacent (as the real map iterates).
+///
+/// Storage is an INLINE fixed-capacity array (no heap): bounded model checkers propagate
+/// constants through stack objects but not through heap objects, and header lookups on
+/// concrete request texts must stay concrete. Exceeding `MODEL_CAP` entries panics with a
+/// message that names the model (the real map holds 32768).
+pub const MODEL_CAP: usize = 8;
+
 #[derive(Clone, Debug)]
 pub struct HeaderMap<T = HeaderValue> {
-    entries: Vec<(HeaderName, T)>,
+    entries: [Option<(HeaderName, T)>; MODEL_CAP],
+    len: usize,
 }
 
 impl HeaderMap<HeaderValue> {
     pub fn new() -> Self {
-        HeaderMap { entries: Vec::new() }
+        HeaderMap { entries: [const { None }; MODEL_CAP], len: 0 }
     }
 }
 
 impl<T> Default for HeaderMap<T> {
     fn default() -> Self {
-        HeaderMap { entries: Vec::new() }
+        HeaderMap { entries: [const { None }; MODEL_CAP], len: 0 }
     }
 }
 
 impl<T> HeaderMap<T> {
-    pub fn with_capacity(n: usize) -> Self {
-        HeaderMap { entries: Vec::with_capacity(n) }
+    pub fn with_capacity(_n: usize) -> Self {
+        HeaderMap { entries: [const { None }; MODEL_CAP], len: 0 }
     }
     pub fn len(&self) -> usize {
-        self.entries.len()
+        self.len
+    }
+    fn name_at(&self, i: usize) -> &HeaderName {
+        match &self.entries[i] {
+            Some((k, _)) => k,
+            None => unreachable!(),
+        }
+    }
+    fn val_at(&self, i: usize) -> &T {
+        match &self.entries[i] {
+            Some((_, v)) => v,
+            None => unreachable!(),
+        }
     }
     pub fn keys_len(&self) -> usize {
         let mut n = 0;
         let mut i = 0;
-        while i < self.entries.len() {
-            if i == 0 || self.entries[i - 1].0 != self.entries[i].0 {
+        while i < MODEL_CAP {
+            if i < self.len && (i == 0 || self.name_at(i - 1) != self.name_at(i)) {
                 n += 1;
             }
             i += 1;
@@ -616,23 +700,30 @@ impl<T> HeaderMap<T> {
         n
     }
     pub fn is_empty(&self) -> bool {
-        self.entries.is_empty()
+        self.len == 0
     }
     pub fn clear(&mut self) {
-        self.entries.clear()
+        let mut i = 0;
+        while i < MODEL_CAP {
+            self.entries[i] = None;
+            i += 1;
+        }
+        self.len = 0;
     }
     pub fn capacity(&self) -> usize {
-        self.entries.capacity()
+        MODEL_CAP
     }
-    pub fn reserve(&mut self, n: usize) {
-        self.entries.reserve(n)
-    }
+    pub fn reserve(&mut self, _n: usize) {}
 
     fn find<K: AsHeaderName>(&self, key: &K) -> Option<usize> {
         let mut i = 0;
-        while i < self.entries.len() {
-            if sealed::Sealed::matches(key, &self.entries[i].0) {
-                return Some(i);
+        while i < MODEL_CAP {
+            if i < self.len {
+                if let Some((k, _)) = &self.entries[i] {
+                    if sealed::Sealed::matches(key, k) {
+                        return Some(i);
+                    }
+                }
             }
             i += 1;
         }
@@ -641,13 +732,16 @@ impl<T> HeaderMap<T> {
 
     pub fn get<K: AsHeaderName>(&self, key: K) -> Option<&T> {
         match self.find(&key) {
-            Some(i) => Some(&self.entries[i].1),
+            Some(i) => Some(self.val_at(i)),
             None => None,
         }
     }
     pub fn get_mut<K: AsHeaderName>(&mut self, key: K) -> Option<&mut T> {
         match self.find(&key) {
-            Some(i) => Some(&mut self.entries[i].1),
+            Some(i) => match &mut self.entries[i] {
+                Some((_, v)) => Some(v),
+                None => None,
+            },
             None => None,
         }
     }
@@ -659,21 +753,68 @@ impl<T> HeaderMap<T> {
         GetAll { map: self, start }
     }
 
+    /// Inserts at position `at`, shifting later entries.
+    fn insert_at(&mut self, at: usize, e: (HeaderName, T)) {
+        assert!(self.len < MODEL_CAP, "http model: HeaderMap holds at most MODEL_CAP entries");
+        let mut i = MODEL_CAP - 1;
+        while i > 0 {
+            if i > at && i <= self.len {
+                self.entries[i] = self.entries[i - 1].take();
+            }
+            i -= 1;
+        }
+        self.entries[at] = Some(e);
+        self.len += 1;
+    }
+    fn remove_at(&mut self, at: usize) -> (HeaderName, T) {
+        let e = self.entries[at].take().unwrap();
+        let mut i = 0;
+        while i + 1 < MODEL_CAP {
+            if i >= at && i + 1 < self.len {
+                self.entries[i] = self.entries[i + 1].take();
+            }
+            i += 1;
+        }
+        self.len -= 1;
+        e
+    }
+    /// one past the last value of the name whose first value is at `i`
+    fn group_end(&self, i: usize) -> usize {
+        let mut j = i + 1;
+        let mut k = 0;
+        while k < MODEL_CAP {
+            if j < self.len && self.name_at(j) == self.name_at(i) {
+                j += 1;
+            }
+            k += 1;
+        }
+        j
+    }
+
     /// Replaces all values of the name; returns the first previous value.
     pub fn insert<K: IntoHeaderName>(&mut self, key: K, val: T) -> Option<T> {
         let name = into_sealed::Sealed::into_name(key);
         match self.find(&&name) {
             None => {
-                self.entries.push((name, val));
+                let at = self.len;
+                self.insert_at(at, (name, val));
                 None
             }
             Some(i) => {
-                let old = std::mem::replace(&mut self.entries[i].1, val);
-                // drop further values of the same name (they are adjacent)
-                while i + 1 < self.entries.len() && self.entries[i + 1].0 == name {
-                    self.entries.remove(i + 1);
+                let end = self.group_end(i);
+                let mut extra = end - (i + 1);
+                let mut g = 0;
+                while g < MODEL_CAP {
+                    if extra > 0 {
+                        let _ = self.remove_at(i + 1);
+                        extra -= 1;
+                    }
+                    g += 1;
                 }
-                Some(old)
+                match &mut self.entries[i] {
+                    Some((_, v)) => Some(std::mem::replace(v, val)),
+                    None => None,
+                }
             }
         }
     }
@@ -683,15 +824,13 @@ impl<T> HeaderMap<T> {
         let name = into_sealed::Sealed::into_name(key);
         match self.find(&&name) {
             None => {
-                self.entries.push((name, val));
+                let at = self.len;
+                self.insert_at(at, (name, val));
                 false
             }
             Some(i) => {
-                let mut j = i + 1;
-                while j < self.entries.len() && self.entries[j].0 == name {
-                    j += 1;
-                }
-                self.entries.insert(j, (name, val));
+                let j = self.group_end(i);
+                self.insert_at(j, (name, val));
                 true
             }
         }
@@ -701,50 +840,80 @@ impl<T> HeaderMap<T> {
         match self.find(&key) {
             None => None,
             Some(i) => {
-                let (name, first) = self.entries.remove(i);
-                while i < self.entries.len() && self.entries[i].0 == name {
-                    self.entries.remove(i);
+                let end = self.group_end(i);
+                let mut extra = end - (i + 1);
+                let mut g = 0;
+                while g < MODEL_CAP {
+                    if extra > 0 {
+                        let _ = self.remove_at(i + 1);
+                        extra -= 1;
+                    }
+                    g += 1;
                 }
+                let (_, first) = self.remove_at(i);
                 Some(first)
             }
         }
     }
 
     pub fn iter(&self) -> Iter<'_, T> {
-        Iter { inner: self.entries.iter() }
+        Iter { map: self, i: 0 }
+    }
+    /// MODEL-ONLY: direct access to slot `i` (harnesses snapshot a map in one pass).
+    pub fn model_slot(&self, i: usize) -> Option<(&HeaderName, &T)> {
+        if i < self.len {
+            match &self.entries[i] {
+                Some((k, v)) => Some((k, v)),
+                None => None,
+            }
+        } else {
+            None
+        }
     }
     pub fn keys(&self) -> Keys<'_, T> {
         Keys { map: self, i: 0 }
     }
     pub fn values(&self) -> Values<'_, T> {
-        Values { inner: self.entries.iter() }
+        Values { map: self, i: 0 }
     }
 }
 
 pub struct Iter<'a, T> {
-    inner: std::slice::Iter<'a, (HeaderName, T)>,
+    map: &'a HeaderMap<T>,
+    i: usize,
 }
 impl<'a, T> Iterator for Iter<'a, T> {
     type Item = (&'a HeaderName, &'a T);
     fn next(&mut self) -> Option<Self::Item> {
-        match self.inner.next() {
-            Some((k, v)) => Some((k, v)),
-            None => None,
+        if self.i < self.map.len {
+            let i = self.i;
+            self.i += 1;
+            match &self.map.entries[i] {
+                Some((k, v)) => Some((k, v)),
+                None => None,
+            }
+        } else {
+            None
         }
     }
     fn size_hint(&self) -> (usize, Option<usize>) {
-        self.inner.size_hint()
+        let n = self.map.len - self.i;
+        (n, Some(n))
     }
 }
 pub struct Values<'a, T> {
-    inner: std::slice::Iter<'a, (HeaderName, T)>,
+    map: &'a HeaderMap<T>,
+    i: usize,
 }
 impl<'a, T> Iterator for Values<'a, T> {
     type Item = &'a T;
     fn next(&mut self) -> Option<Self::Item> {
-        match self.inner.next() {
-            Some((_, v)) => Some(v),
-            None => None,
+        if self.i < self.map.len {
+            let i = self.i;
+            self.i += 1;
+            Some(self.map.val_at(i))
+        } else {
+            None
         }
     }
 }
@@ -755,11 +924,11 @@ pub struct Keys<'a, T> {
 impl<'a, T> Iterator for Keys<'a, T> {
     type Item = &'a HeaderName;
     fn next(&mut self) -> Option<Self::Item> {
-        while self.i < self.map.entries.len() {
+        while self.i < self.map.len {
             let i = self.i;
             self.i += 1;
-            if i == 0 || self.map.entries[i - 1].0 != self.map.entries[i].0 {
-                return Some(&self.map.entries[i].0);
+            if i == 0 || self.map.name_at(i - 1) != self.map.name_at(i) {
+                return Some(self.map.name_at(i));
             }
         }
         None
@@ -797,8 +966,8 @@ impl<'a, T> Iterator for ValueIter<'a, T> {
     type Item = &'a T;
     fn next(&mut self) -> Option<&'a T> {
         let first = self.name_at?;
-        if self.i < self.map.entries.len() && self.map.entries[self.i].0 == self.map.entries[first].0 {
-            let v = &self.map.entries[self.i].1;
+        if self.i < self.map.len && self.map.name_at(self.i) == self.map.name_at(first) {
+            let v = self.map.val_at(self.i);
             self.i += 1;
             Some(v)
         } else {
@@ -817,13 +986,19 @@ impl<'a, T> IntoIterator for &'a HeaderMap<T> {
 
 /// Owning iterator: like the real one, yields `Some(name)` only for the first value of a name.
 pub struct IntoIter<T> {
-    inner: std::vec::IntoIter<(HeaderName, T)>,
+    map: HeaderMap<T>,
+    i: usize,
     last: Option<HeaderName>,
 }
 impl<T> Iterator for IntoIter<T> {
     type Item = (Option<HeaderName>, T);
     fn next(&mut self) -> Option<Self::Item> {
-        match self.inner.next() {
+        if self.i >= self.map.len {
+            return None;
+        }
+        let i = self.i;
+        self.i += 1;
+        match self.map.entries[i].take() {
             None => None,
             Some((k, v)) => {
                 let same = match &self.last {
@@ -844,7 +1019,7 @@ impl<T> IntoIterator for HeaderMap<T> {
     type Item = (Option<HeaderName>, T);
     type IntoIter = IntoIter<T>;
     fn into_iter(self) -> IntoIter<T> {
-        IntoIter { inner: self.entries.into_iter(), last: None }
+        IntoIter { map: self, i: 0, last: None }
     }
 }
 
@@ -883,15 +1058,15 @@ impl<T> std::iter::FromIterator<(HeaderName, T)> for HeaderMap<T> {
 }
 impl<T: PartialEq> PartialEq for HeaderMap<T> {
     fn eq(&self, o: &HeaderMap<T>) -> bool {
-        if self.entries.len() != o.entries.len() {
+        if self.len != o.len {
             return false;
         }
-        // same multiset per name, order of values within a name matters
+        // same values per name, order of values within a name matters
         let mut i = 0;
-        while i < self.entries.len() {
-            let name = &self.entries[i].0;
-            let a: Vec<&T> = self.entries.iter().filter(|e| e.0 == *name).map(|e| &e.1).collect();
-            let b: Vec<&T> = o.entries.iter().filter(|e| e.0 == *name).map(|e| &e.1).collect();
+        while i < self.len {
+            let name = self.name_at(i);
+            let a: Vec<&T> = self.iter().filter(|e| e.0 == name).map(|e| e.1).collect();
+            let b: Vec<&T> = o.iter().filter(|e| e.0 == name).map(|e| e.1).collect();
             if a != b {
                 return false;
             }
